@@ -23,6 +23,11 @@
          [v_addr] = result of EVMAddressFromSignatures when both signatures have >= 64 bytes;
        - common.HexToAddress on the injected address strings (table [tbl]).
 
+   The handlers of the model are functions of (state, request) only: a ProposalHandler instance carries
+   nothing from one block to the next.  The harness checks that too: case [CPeer] holds the outputs of
+   several real handler instances with different histories on one state, and the measured facts above
+   (in particular [v_op]) are those of the state at the time of the call.
+
    Variant flags ([true] = repaired behaviour, DESIGN 2.3):
      g_len  (F27) ProcessProposalHandler indexes req.Txs[0] of an empty proposal; PreBlocker indexes the
                   parallel lists of the injected tx without length checks;
@@ -376,6 +381,15 @@ Definition verify_ext (ext : option vext) (has_evm : bool) (nreq : option Z) : v
 Definition expected (st : bstate) (c : commit) : option itx :=
   check_all {| g_len := true; g_sig := true; g_slot := true |} st (c_votes c).
 
+(* "data is attributed to the validator that sent it": every operator named in one of the three operator
+   lists of injected data is the operator that the staking state the proposal is checked against gives for the
+   consensus address of some commit-flag vote of the extended commit.  (A handler that resolves votes
+   from anything else than that state, e.g. from what it saw in earlier blocks, names other operators.) *)
+Definition names_sender (vs : list vote) (o : string) : bool :=
+  existsb (fun v => (v_flag v =? 2) && option_eqb String.eqb (v_op v) (Some o)) vs.
+Definition attributed (vs : list vote) (l : itx) : bool :=
+  forallb (names_sender vs) (olist (t_ops l) ++ olist (t_vops l) ++ olist (t_aops l)).
+
 Fixpoint nodupb (l : list hex) : bool :=
   match l with [] => true | x :: r => negb (existsb (Z.eqb x) r) && nodupb r end.
 
@@ -488,6 +502,11 @@ Inductive c17_case :=
         (main : option mutant)    (* real ProcessProposalHandler / PreBlocker on Prepare's own output *)
         (muts : list mutant)      (* the same on single-field mutations of it *)
 | CArb (en : bool) (tbl : list (string * hex)) (st : bstate) (m : mutant)
+(* several handler instances with different histories (one that has processed earlier blocks on other
+   staking states, one created for this block) on ONE state and ONE extended commit *)
+| CPeer (en : bool) (tbl : list (string * hex)) (st : bstate) (c : commit)
+        (preps : list prep_res)   (* real PrepareProposalHandler of every instance *)
+        (runs : list mutant)      (* real ProcessProposalHandler / PreBlocker of every instance on every instance's proposal *)
 | CVerify (ext : option vext) (has_evm : bool) (nreq : option Z) (v : verdict).
 
 (* ---- comparison of maps as maps ---- *)
@@ -530,6 +549,9 @@ Definition diffs (g : variant) (c : c17_case) : issues :=
       match main with None => [] | Some m => diff_mutant g en tbl st m end ++
       flat_map (diff_mutant g en tbl st) muts
   | CArb en tbl st m => diff_mutant g en tbl st m
+  | CPeer en tbl st cm preps runs =>
+      flat_map (fun prep => diff_if (prep_eqb (prepare g en st cm) prep) "PrepareProposalHandler output") preps ++
+      flat_map (diff_mutant g en tbl st) runs
   | CVerify ext has_evm nreq v => diff_if (verdict_eqb (verify_ext ext has_evm nreq) v) "VerifyVoteExtensionHandler verdict"
   end.
 
@@ -589,20 +611,47 @@ Definition spec_mutant (main : bool) (en : bool) (tbl : list (string * hex)) (st
   | _ => if en then spec_if (negb (verdict_eqb (m_verdict m) ACCEPT)) "tamper: a proposal without decodable bridge data is accepted" else []
   end.
 
+(* one output of PrepareProposalHandler on the commit [cm] *)
+Definition spec_prep (en : bool) (st : bstate) (cm : commit) (prep : prep_res) : issues :=
+  match prep with
+  | PPanic => if existsb vote_short_sig (c_votes cm)
+              then [Spec "panic in PrepareProposalHandler: initial signature shorter than 64 bytes"]
+              else [Spec "panic in PrepareProposalHandler"]
+  | PNone => spec_if (negb en) "coherence: no bridge data injected although vote extensions are enabled"
+  | PInj l => spec_if (en && option_eqb itx_eqb (expected st cm) (Some l))
+                      "injected data differs from what the commit's vote extensions contain" ++
+              spec_if (attributed (c_votes cm) l)
+                      "attribution: injected data is attributed to another validator than the one that sent it"
+  end.
+
+Definition preps_agree (preps : list prep_res) : bool :=
+  match preps with [] => true | p :: r => forallb (prep_eqb p) r end.
+
+(* the proposal is what an honest proposer builds on this state: a valid commit and exactly its data *)
+Definition honest_proposal (st : bstate) (p : proposal) : bool :=
+  match p with
+  | Tx l c => c_valid c && option_eqb itx_eqb (expected st c) (Some l)
+  | _ => false
+  end.
+
+(* one run of some instance's ProcessProposalHandler / PreBlocker on some instance's proposal *)
+Definition spec_peer_run (en : bool) (tbl : list (string * hex)) (st : bstate) (m : mutant) : issues :=
+  spec_if (negb en || negb (honest_proposal st (m_prop m)) || verdict_eqb (m_verdict m) ACCEPT)
+          "coherence: an honest proposal built on the same state was rejected by an honest validator" ++
+  spec_mutant false en tbl st m.
+
 Definition c17_specs (c : c17_case) : issues :=
   match c with
   | CPipe en tbl st cm prep main muts =>
-      match prep with
-      | PPanic => if existsb vote_short_sig (c_votes cm)
-                  then [Spec "panic in PrepareProposalHandler: initial signature shorter than 64 bytes"]
-                  else [Spec "panic in PrepareProposalHandler"]
-      | PNone => spec_if (negb en) "coherence: no bridge data injected although vote extensions are enabled"
-      | PInj l => spec_if (en && option_eqb itx_eqb (expected st cm) (Some l))
-                          "injected data differs from what the commit's vote extensions contain"
-      end ++
+      spec_prep en st cm prep ++
       match main with None => [] | Some m => spec_mutant true en tbl st m end ++
       flat_map (spec_mutant false en tbl st) muts
   | CArb en tbl st m => spec_mutant false en tbl st m
+  | CPeer en tbl st cm preps runs =>
+      flat_map (spec_prep en st cm) preps ++
+      spec_if (preps_agree preps)
+              "coherence: two honest proposers on the same state and extended commit built different proposals" ++
+      flat_map (spec_peer_run en tbl st) runs
   | CVerify ext has_evm nreq v =>
       spec_if (negb (verdict_eqb v PANIC)) "panic in VerifyVoteExtensionHandler" ++
       match ext with
@@ -644,16 +693,17 @@ Definition mutants_of (c : c17_case) : list mutant :=
   match c with
   | CPipe _ _ _ _ _ main muts => match main with Some m => m :: muts | None => muts end
   | CArb _ _ _ m => [m]
+  | CPeer _ _ _ _ _ runs => runs
   | CVerify _ _ _ _ => []
   end.
 Definition case_env (c : c17_case) : list (string * hex) * bstate :=
   match c with
-  | CPipe _ tbl st _ _ _ _ | CArb _ tbl st _ => (tbl, st)
+  | CPipe _ tbl st _ _ _ _ | CArb _ tbl st _ | CPeer _ tbl st _ _ _ => (tbl, st)
   | CVerify _ _ _ _ => ([], {| s_evm := []; s_vsigs := []; s_tsidx := []; s_idxts := []; s_valsets := [];
                                 s_cur := None; s_atts := []; s_snapvs := [] |})
   end.
 Definition case_votes (c : c17_case) : list vote :=
-  match c with CPipe _ _ _ cm _ _ _ => c_votes cm | _ => [] end ++
+  match c with CPipe _ _ _ cm _ _ _ | CPeer _ _ _ cm _ _ => c_votes cm | _ => [] end ++
   flat_map (fun m => prop_commit (m_prop m)) (mutants_of c).
 
 Definition c17_classes (c : c17_case) : list string :=
